@@ -208,7 +208,9 @@ func (g *genSet) blame(se string) map[string]string {
 // buildDriver builds the driver; generated files that do not compile are
 // recorded in g.broken, removed, and the build is retried.
 func (g *genSet) buildDriver(overlay, out string) error {
-	g.broken = map[string]string{}
+	if g.broken == nil {
+		g.broken = map[string]string{}
+	}
 	for attempt := 0; attempt < 40; attempt++ {
 		args := []string{"build"}
 		if overlay != "" {
@@ -239,4 +241,83 @@ func truncate(s string, n int) string {
 		return s[:n] + "..."
 	}
 	return s
+}
+
+// mapRangeOverlay makes map iteration in generated code a decision of the
+// explorer: generated files that range over a map are rewritten (range m ->
+// range vs.MapKeys(m)) and added to a copy of the overlay.
+func (g *genSet) mapRangeOverlay(overlay, build string) (string, error) {
+	var pkgs []string
+	seen := map[string]bool{}
+	for _, p := range g.progs {
+		if p.Par == nil {
+			continue
+		}
+		hasMap := false
+		for _, it := range p.Par.Items {
+			if it.Kind == "map" {
+				hasMap = true
+			}
+		}
+		if hasMap && !seen[g.pkgOf[p.ID]] {
+			seen[g.pkgOf[p.ID]] = true
+			pkgs = append(pkgs, "./"+g.pkgOf[p.ID])
+		}
+	}
+	if len(pkgs) == 0 {
+		return overlay, nil
+	}
+	b, err := os.ReadFile(overlay)
+	if err != nil {
+		return "", err
+	}
+	ov := filepath.Join(build, "overlay-gen.json")
+	if err := os.WriteFile(ov, b, 0o644); err != nil {
+		return "", err
+	}
+	rw := filepath.Join(mcVerifDir(), "build", "bin", "rewrite")
+	out := filepath.Join(build, "rw-gen")
+	os.RemoveAll(out)
+	// generated files with compile errors would stop the loader: drop them first
+	g.broken = map[string]string{}
+	g.buildAllQuiet()
+	so, se, code := run(g.dir, goEnv, rw, "-repo", g.dir, "-dir", g.dir, "-out", out, "-pkgs", strings.Join(pkgs, ","), "-maprange", "-merge", "-overlay", ov)
+	if code != 0 {
+		return "", fmt.Errorf("rewriting map ranges of generated code failed: %s %s", so, truncate(se, 2000))
+	}
+	return ov, nil
+}
+
+func mcVerifDir() string {
+	if d := os.Getenv("VERIF_DIR"); d != "" {
+		return d
+	}
+	return "/verif"
+}
+
+// buildAllQuiet compiles the generated packages, removing files that do not
+// compile (recorded in g.broken).
+func (g *genSet) buildAllQuiet() {
+	for attempt := 0; attempt < 60; attempt++ {
+		var pk []string
+		for _, p := range g.pkgs() {
+			pk = append(pk, "./"+p)
+		}
+		args := append([]string{"build", "-gcflags=-e"}, pk...)
+		_, se, code := run(g.dir, goEnv, "go", args...)
+		if code == 0 {
+			return
+		}
+		removed := 0
+		for id, msg := range g.blame(se) {
+			if _, dup := g.broken[id]; !dup && g.written[id] {
+				g.broken[id] = msg
+				os.Remove(g.genFile[id])
+				removed++
+			}
+		}
+		if removed == 0 {
+			return
+		}
+	}
 }
